@@ -34,11 +34,15 @@ CASE_FILE_BYTES = 110000
 CASE_TIMEOUT = 20
 TIERS = {"quick": {"n": 1200}, "thorough": {"n": 30000}}
 RULE = ("rt: structured tracebacks (0-8 frames, each with/without source line and marker line, paths with "
-        "spaces/quotes/non-ASCII, <module>/<lambda> names, empty/one-line/multi-line messages with ': '), ~15% with "
-        "one well-formedness condition deliberately broken; raw: mutated/malformed texts; ei: generated programs "
-        "(depth 1-12, 11 kinds of callables, 1-3 modules, recursion 0-6). Non-trivial = rt case that is well-formed "
-        "with >= 2 frames of which at least one has no source line, or an ei case with >= 3 frames; distinct = distinct "
-        "case hash")
+        "spaces/quotes/non-ASCII, <module>/<lambda> names, empty/one-line/multi-line messages with ': '), ~16% with "
+        "one well-formedness condition deliberately broken, ~8% with an entry repeated 2-7 times (folded by the "
+        "interpreter); raw: mutated/malformed texts; re: the four compiled patterns on strings; ei: generated programs "
+        "(depth 1-12, 14 kinds of callables, 1-3 modules, recursion 0-6, 22 ways of raising); sess: 2-4 exceptions in one "
+        "process with the module files rewritten/reloaded/deleted/edited in between, tbutils observed before the "
+        "traceback module; stack: call stacks without exception (from_frame vs extract_stack/format_stack). "
+        "Non-trivial = rt case that is well-formed with >= 2 frames of which at least one has no source line, an ei or "
+        "stack case with >= 3 frames, or a session in which the text served for some (file, line) changed between two "
+        "steps; distinct = distinct case hash")
 ASSUMPTIONS = [
     "CPython's str.isspace / str.splitlines boundaries / regex \\d tables are those generated into Gen/C16_Gen.v "
     "from the running interpreter (the theorems hold for any classes satisfying cc_ok)",
@@ -429,7 +433,7 @@ STMTS = ["return {nx}(n)", "x = {nx}(n); return x", "return ({nx}(\n        n))"
 EXC_MSGS = [None, "", "boom", "a: b", "l1\nl2", "\u00fcn\u00ef \u2713", "  spaced  ", "x\n", "m\n  File \"a\", line 1, in b", 42, ("a", "b")]
 
 
-def gen_ei(rng, tier, mods=None, depths=(1, 1, 2, 3, 3, 4, 5, 6, 8, 12)):
+def gen_ei(rng, tier, mods=None, depths=(1, 1, 2, 3, 3, 4, 5, 6, 8, 12), probe=False):
     depth = rng.choice(depths)
     if mods is None:
         mods = rng.sample(MODNAMES, rng.choice([1, 1, 2, 3]))
@@ -490,6 +494,8 @@ def gen_ei(rng, tier, mods=None, depths=(1, 1, 2, 3, 3, 4, 5, 6, 8, 12)):
     how = rng.choice(["builtin", "builtin", "user", "nestedcls", "local", "fakemod", "customstr", "div", "index", "key",
                       "oserror", "assert", "othermod", "bare", "builtin", "user", "nameerr", "attrerr", "importerr", "badstr"])
     expect = None
+    if probe:
+        how = "probe"
     body = None
     pre = ""
     if how == "builtin":
@@ -536,6 +542,10 @@ def gen_ei(rng, tier, mods=None, depths=(1, 1, 2, 3, 3, 4, 5, 6, 8, 12)):
     elif how == "assert":
         body = "assert n, (%s)" % (args or "'m'") if rng.random() < 0.7 else "assert n"
         expect = "AssertionError"
+    elif how == "probe":
+        # no exception: the innermost callable asks for the current call stack
+        body = rng.choice(["return PROBE()", "x = PROBE(); return x", "return (PROBE(\n    ))"])
+        expect = None
     elif how == "nameerr":
         # near miss (the interpreter adds "Did you mean") or a plain unknown name
         body = rng.choice(["value_total = n\n    return value_totl", "return undefined_name_xyz", "return sy.path"])
@@ -561,6 +571,14 @@ def gen_ei(rng, tier, mods=None, depths=(1, 1, 2, 3, 3, 4, 5, 6, 8, 12)):
     src[m].append("%sdef c%d(n):\n    %s" % (pre, depth, body))
     return {"kind": "ei", "dir": rng.choice(DIRNAMES), "modules": [[mm, "\n".join(src[mm]) + "\n"] for mm in mods],
             "entry": [where[0], "c0"], "expect": expect, "full": rng.random() < 0.3}
+
+
+def gen_stack(rng, tier):
+    """A call stack (no exception): TracebackInfo.from_frame / Callpoint.from_frame against
+    traceback.extract_stack / format_stack for the same frame."""
+    prog = gen_ei(rng, tier, probe=True)
+    prog["kind"] = "stack"
+    return prog
 
 
 def gen_sess(rng, tier):
@@ -648,6 +666,8 @@ def generate(rng, tier, n):
             yield gen_re(rng, tier)
         elif r < 0.86:
             yield gen_sess(rng, tier)
+        elif r < 0.90:
+            yield gen_stack(rng, tier)
         else:
             yield gen_ei(rng, tier)
 
@@ -814,6 +834,63 @@ def _capture(exc, tb, step, d, mods):
     return obs
 
 
+def _run_stack(case, d):
+    import importlib
+    import linecache
+    import traceback
+    from boltons import tbutils
+    names = [m for m, _ in case["modules"]]
+    _write_modules(d, case["modules"])
+    for m in names:
+        sys.modules.pop(m, None)
+    sys.path.insert(0, d)
+    result = []
+
+    def probe():
+        f = sys._getframe(1)
+        # the part of the stack that belongs to the generated program
+        k, g = 0, f
+        while g is not None and g.f_code is not call_entry.__code__:
+            k, g = k + 1, g.f_back
+        if g is None:
+            raise RuntimeError("probe called outside call_entry")
+        # tbutils first
+        tbi = tbutils.TracebackInfo.from_frame(f, limit=k)
+        fmt = tbi.get_formatted()
+        frames = [{"path": c["module_path"], "lineno": c["lineno"], "func": c["func_name"], "line": c["line"]}
+                  for c in tbi.to_dict()["frames"]]
+        one = tbutils.Callpoint.from_frame(f).tb_frame_str()
+        cur = tbutils.Callpoint.from_current(level=2).tb_frame_str()      # level 2 from inside probe = f
+        # the interpreter's view
+        summ = traceback.extract_stack(f, limit=k)
+        live = [{"file": fs.filename, "lineno": fs.lineno, "name": fs.name, "raw": fs._original_line} for fs in summ]
+        full = "".join(traceback.format_stack(f, limit=k))
+        nomark = "".join(traceback.format_list([(fs.filename, fs.lineno, fs.name, fs._original_line) for fs in summ]))
+        if full != nomark:
+            raise RuntimeError("format_stack differs from format_list of extract_stack:\n%s\n---\n%s" % (full, nomark))
+        result.append({"live": live, "interp": nomark, "frames": frames, "fmt": fmt, "one": one, "cur": cur})
+
+    def call_entry(entry):
+        return entry(0)
+    try:
+        importlib.invalidate_caches()
+        mod = importlib.import_module(case["entry"][0])
+        for m in names:
+            if m in sys.modules:
+                sys.modules[m].PROBE = probe
+        call_entry(getattr(mod, case["entry"][1]))
+        if len(result) != 1:
+            raise RuntimeError("probe was called %d times" % len(result))
+        result[0]["root"] = os.path.dirname(d)
+        return result[0]
+    finally:
+        sys.path.remove(d)
+        for m in names:
+            sys.modules.pop(m, None)
+        linecache.clearcache()
+        shutil.rmtree(os.path.dirname(d), ignore_errors=True)
+
+
 def _run_program(case):
     import importlib
     import linecache
@@ -822,6 +899,8 @@ def _run_program(case):
     _COUNTER[0] += 1
     d = os.path.join(_ROOT[0], str(_COUNTER[0]), case["dir"])
     os.makedirs(d)
+    if case["kind"] == "stack":
+        return _run_stack(case, d)
     if case["kind"] == "ei":
         steps = [{"mode": "load", "modules": case["modules"], "entry": case["entry"], "expect": case["expect"],
                   "full": case.get("full"), "first": "dict"}]
@@ -925,6 +1004,10 @@ def to_coq(case, obs):
         g = obs["groups"]
         term = "CaseRe %s %s %s" % (cN(case["which"]), I.t(case["s"]),
                                     "None" if g is None else "(Some %s)" % clist(I.t(x) for x in g))
+    elif kind == "stack":
+        live = clist("mkLive %s %s %s %s" % (I.s(l["file"]), cN(l["lineno"]), I.s(l["name"]), I.s(l["raw"])) for l in obs["live"])
+        frames = clist("mkCpObs %s %s %s %s" % (I.s(f["path"]), cN(f["lineno"]), I.s(f["func"]), I.s(f["line"])) for f in obs["frames"])
+        term = "CaseStack %s %s %s %s %s %s" % (live, I.t(obs["interp"]), frames, I.t(obs["fmt"]), I.t(obs["one"]), I.t(obs["cur"]))
     elif kind == "sess":
         term = "CaseSess %s" % clist("(%s, %s)" % (_ei_args(I, o, tuple_=True),
                                                    "None" if "again" not in o else "(Some %s)" % I.t(o["again"]))
@@ -963,6 +1046,9 @@ def corrupt(case, obs):
             bad["parsed"]["type"] = bad["parsed"]["type"] + "x"
             return bad
         return None
+    if kind == "stack":
+        bad["fmt"] = bad["fmt"] + "x"
+        return bad
     if kind == "sess":
         o = bad["steps"][-1]
         if o["live"]:
@@ -982,6 +1068,8 @@ def nontrivial(case, obs):
         fr = case["frames"]
         return case["bad"] is None and len(fr) >= 2 and any(not f["src"] for f in fr)
     if case["kind"] == "ei":
+        return len(obs["frames"]) >= 3
+    if case["kind"] == "stack":
         return len(obs["frames"]) >= 3
     if case["kind"] == "sess":
         # the text linecache serves for some (file, line) changed between two steps
@@ -1013,6 +1101,8 @@ def distribution(d, case, obs):
         inc("rt_outcome", "parsed" if "err" not in obs["parsed"] else obs["parsed"]["err"])
     elif kind == "re":
         inc("re_outcome", "%s:%s" % (("frame", "se_frame", "underline", "repeat")[case["which"]], "match" if obs["groups"] is not None else "no"))
+    elif kind == "stack":
+        inc("stack_frames", str(min(20, len(obs["frames"]))))
     elif kind == "sess":
         inc("sess_steps", str(len(obs["steps"])))
         for st, o in zip(case["steps"], obs["steps"]):
@@ -1041,6 +1131,8 @@ def distribution(d, case, obs):
 def sample(case, obs):
     if case["kind"] == "re":
         return {"case": case, "groups": obs["groups"]}
+    if case["kind"] == "stack":
+        return {"kind": "stack", "fmt": obs["fmt"].replace(obs["root"], "<tmp>")}
     if case["kind"] == "sess":
         return {"kind": "sess", "modes": [st["mode"] for st in case["steps"]],
                 "fmt": [o["fmt"].replace(obs["root"], "<tmp>") for o in obs["steps"]]}
